@@ -1,2 +1,158 @@
+"""Extracts the class lattice of the four language modules from the live /repo code (C08).
+
+Nothing here is a hand-written copy of the lattice: every fact is obtained from the imported modules by
+introspection (`M.alphabet`, `issubclass`) or by observation (which class a constructor hands to
+`wrap_subformulas`, recorded by temporarily wrapping that method while one object of every alphabet class is built).
+
+Output: lean/PMC/Generated/ClassTable.lean, the value `PMC.Classes.generatedTable : ClassTable`
+(deterministically sorted; an unchanged /repo gives a byte-identical file).
+"""
+import importlib
+import inspect
+import os
+import sys
+
+HERE = os.path.dirname(os.path.abspath(__file__))
+ROOT = os.path.dirname(os.path.dirname(HERE))
+REPO = os.environ.get('REPO', '/repo')
+OUT = os.path.join(ROOT, 'lean', 'PMC', 'Generated', 'ClassTable.lean')
+
+LOGICS = ('PL', 'CTL', 'LTL', 'CTLS')           # order of the constructors of `PMC.Logic`
+# class names that are "kinds" (looked up in every language module that defines them) ...
+KINDS = ('Formula', 'StateFormula', 'PathFormula')
+# ... and one further class that a `modelcheck` guard tests with `isinstance` (LTL.modelcheck: `isinstance(f, CTLS.A)`)
+EXTRA_KINDS = (('CTLS', 'A'),)
+
+
+def _lang_module(name):
+    if REPO not in sys.path:
+        sys.path.insert(0, REPO)
+    importlib.import_module('pyModelChecking.' + name)          # the package (fills in cross imports)
+    return importlib.import_module('pyModelChecking.%s.language' % name)
+
+
+def _logic_of(modname):
+    """'pyModelChecking.CTL.language' -> 'CTL'; None for anything that is not one of the four language modules"""
+    parts = modname.split('.')
+    if len(parts) == 3 and parts[0] == 'pyModelChecking' and parts[2] == 'language' and parts[1] in LOGICS:
+        return parts[1]
+    return None
+
+
+def observe_operand_classes(mods):
+    """(logic, class name) -> (logic, class name) of the FormulaClass argument of wrap_subformulas"""
+    import pyModelChecking.language as BL
+    import pyModelChecking.PL.language as PLL
+    seen = {}
+    saved = [(BL.Formula, BL.Formula.__dict__['wrap_subformulas']),
+             (PLL.Formula, PLL.Formula.__dict__['wrap_subformulas'])]
+
+    def wrapper(orig):
+        def wrap_subformulas(self, subformulas, FormulaClass):
+            key = (type(self).__module__, type(self).__name__)
+            seen.setdefault(key, set()).add((FormulaClass.__module__, FormulaClass.__name__))
+            return orig(self, subformulas, FormulaClass)
+        return wrap_subformulas
+
+    try:
+        for cls, orig in saved:
+            setattr(cls, 'wrap_subformulas', wrapper(orig))
+        for name in LOGICS:
+            mod = mods[name]
+            for cname in sorted(mod.alphabet):
+                cls = mod.alphabet[cname]
+                for nargs in (1, 2, 3):
+                    try:
+                        cls(*(['p'] * nargs))
+                        break
+                    except TypeError:
+                        continue
+    finally:
+        for cls, orig in saved:
+            setattr(cls, 'wrap_subformulas', orig)
+
+    table = {}
+    for name in LOGICS:
+        mod = mods[name]
+        for cname in sorted(mod.alphabet):
+            cls = mod.alphabet[cname]
+            got = seen.get((cls.__module__, cls.__name__))
+            if not got:
+                continue                       # a leaf: its constructor never reaches wrap_subformulas
+            if len(got) != 1:
+                raise RuntimeError('constructor of %s.%s used several operand classes: %r' % (name, cname, got))
+            (fmod, fname), = got
+            flogic = _logic_of(fmod)
+            if flogic is None or getattr(mods[flogic], fname, None) is None:
+                raise RuntimeError('operand class %s.%s of %s.%s is not in a language module' % (fmod, fname, name, cname))
+            if _logic_of(cls.__module__) != name:
+                raise RuntimeError('alphabet class %s.%s lives in %s' % (name, cname, cls.__module__))
+            table[(name, cname)] = (flogic, fname)
+    return table
+
+
+def subclass_facts(mods):
+    """(logic, class) -> sorted list of (logic', kind) with issubclass(logic.class, logic'.kind), kind defined in logic'"""
+    kinds = []
+    for name, k in [(name, k) for name in LOGICS for k in KINDS] + list(EXTRA_KINDS):
+        K = getattr(mods[name], k, None)
+        if inspect.isclass(K) and K.__module__ == mods[name].__name__:
+            kinds.append((name, k, K))
+    facts = {}
+    for name in LOGICS:
+        for cname in sorted(mods[name].alphabet):
+            cls = mods[name].alphabet[cname]
+            facts[(name, cname)] = [(m, k) for (m, k, K) in kinds if issubclass(cls, K)]
+    return facts
+
+
+def extract():
+    mods = {name: _lang_module(name) for name in LOGICS}
+    alphabets = {name: sorted(mods[name].alphabet) for name in LOGICS}
+    return alphabets, observe_operand_classes(mods), subclass_facts(mods)
+
+
+def _lstr(s):
+    if not all(c.isascii() and (c.isalnum() or c == '_') for c in s):
+        raise RuntimeError('unexpected class name %r' % (s,))
+    return '"%s"' % s
+
+
+def _key(p):
+    return (LOGICS.index(p[0]), p[1])
+
+
+def render(alphabets, operand, facts):
+    out = []
+    out.append('/- GENERATED by harness/extract/classes.py from the live pyModelChecking code.  DO NOT EDIT. -/')
+    out.append('import PMC.Model.Classes')
+    out.append('namespace PMC.Classes')
+    out.append('')
+    out.append('def generatedTable : ClassTable where')
+    out.append('  alphabet := [')
+    out.append(',\n'.join('    (.%s, [%s])' % (m, ', '.join(_lstr(c) for c in alphabets[m])) for m in LOGICS))
+    out.append('  ]')
+    out.append('  operand := [')
+    out.append(',\n'.join('    ((.%s, %s), (.%s, %s))' % (k[0], _lstr(k[1]), v[0], _lstr(v[1]))
+                          for k, v in sorted(operand.items(), key=lambda kv: _key(kv[0]))))
+    out.append('  ]')
+    out.append('  sub := [')
+    out.append(',\n'.join('    ((.%s, %s), [%s])' % (k[0], _lstr(k[1]),
+                                                     ', '.join('(.%s, %s)' % (m, _lstr(c)) for m, c in sorted(v, key=_key)))
+                          for k, v in sorted(facts.items(), key=lambda kv: _key(kv[0]))))
+    out.append('  ]')
+    out.append('')
+    out.append('end PMC.Classes')
+    return '\n'.join(out) + '\n'
+
+
 def generate():
-    return ''
+    from extract.generate_all import write_if_changed
+    content = render(*extract())
+    changed = write_if_changed(OUT, content)
+    return 'classes: %s %s' % (os.path.relpath(OUT, ROOT), 'rewritten' if changed else 'unchanged')
+
+
+if __name__ == '__main__':
+    sys.path.insert(0, os.path.dirname(HERE))
+    print(generate())
